@@ -270,8 +270,8 @@ def canaries():
 
 
 ITEMS = ["MarkerTrack", "EMGTrack", "ForceTorqueTrack", "PlatformData", "PlatformInfo", "Viewport", "SeelabCamera", "BTSCamera",
-         "OpticalChannel", "Event", "Entry"]
-BLOCKS = ["Data3D", "EMG", "ForceTorque3D", "PlatformsData", "PlatformsCalibration", "Calibration", "OpticalSetup", "Events"]
+         "OpticalChannel", "Event", "Entry", "Data2DPCK"]
+BLOCKS = ["Data3D", "EMG", "ForceTorque3D", "PlatformsData", "PlatformsCalibration", "Calibration", "OpticalSetup", "Events", "Data2D"]
 
 
 def all_tasks():
